@@ -302,6 +302,13 @@ def r9(ctx):
     from . import C12
     ctx.share("C15.R9", C12.r3, "C12.R3", keep=lambda k: "remote-insert" in k or "announce" in k, floor=3)
 
+def r10(ctx):
+    """"can only be set for an existing document" - and a document that was removed is not one: removing it erases its policy row,
+    so that a document re-created under the same id starts with the default policy (= C16.R1 for the policy table)"""
+    from . import C16
+    C16.r1(ctx, rule="C15.R10", only={"download_policy"})
+    ctx.floor("C15.R10", 1)
+
 def run(ctx):
     ctx.run_rule("C15.R1", r1)
     ctx.run_rule("C15.R2", r2)
@@ -312,3 +319,4 @@ def run(ctx):
     ctx.run_rule("C15.R7", r7)
     ctx.run_rule("C15.R8", r8)
     ctx.run_rule("C15.R9", r9)
+    ctx.run_rule("C15.R10", r10)
